@@ -2,9 +2,9 @@ SPECIFICATION Spec
 CONSTANTS
   NRot = 3
   K = 0
-  M = 1
+  M = 2
   Variant = "as_coded"
-  Direct = FALSE
+  Direct = TRUE
   GenHist = TRUE
 INVARIANT Emit
 CHECK_DEADLOCK FALSE
